@@ -79,6 +79,12 @@ type Params struct {
 	CrashPoints bool `json:"crash_points"`
 	// NoDLP strips the data-loss-protect fields from channel_reestablish.
 	NoDLP bool `json:"no_dlp"`
+	// CapacitySat is the channel capacity (default 10 BTC); GrossA is A's gross
+	// share in satoshi before the opener's fee/anchors (default half); ReserveSat
+	// is each side's channel reserve (default capacity/100).
+	CapacitySat int64 `json:"capacity_sat,omitempty"`
+	GrossA      int64 `json:"gross_a,omitempty"`
+	ReserveSat  int64 `json:"reserve_sat,omitempty"`
 	// CutOnlyInSync restricts second and later cuts to states where
 	// resynchronisation is still in progress (quick tier of C02/C03).
 	CutOnlyInSync bool `json:"cut_only_in_sync"`
@@ -94,6 +100,15 @@ func (p Params) Normalize() Params {
 	}
 	if p.DustB == 0 {
 		p.DustB = 1300
+	}
+	if p.CapacitySat == 0 {
+		p.CapacitySat = defaultCapacitySat
+	}
+	if p.GrossA == 0 {
+		p.GrossA = p.CapacitySat / 2
+	}
+	if p.ReserveSat == 0 {
+		p.ReserveSat = p.CapacitySat / 100
 	}
 	return p
 }
@@ -113,8 +128,7 @@ func (p Params) Name() string {
 }
 
 const (
-	capacitySat = 10 * 100_000_000
-	halfSat     = capacitySat / 2
+	defaultCapacitySat = 10 * 100_000_000
 	anchorSat   = 330
 	csvA        = 5
 	csvB        = 4
@@ -192,6 +206,7 @@ type World struct {
 	feeSent   int
 	feeSigned int
 	cuts      int
+	gross     [2]int64 // gross shares in satoshi (before opener fee/anchors)
 	hist      []string
 	report    Reporter
 	dir       string
@@ -248,11 +263,11 @@ func privs(seed byte) []*btcec.PrivateKey {
 	return out
 }
 
-func chanCfg(keys []*btcec.PrivateKey, dust int64, csv uint16) channeldb.ChannelConfig {
+func chanCfg(keys []*btcec.PrivateKey, dust int64, csv uint16, capacitySat, reserve int64) channeldb.ChannelConfig {
 	return channeldb.ChannelConfig{
 		ChannelStateBounds: channeldb.ChannelStateBounds{
-			MaxPendingAmount: lnwire.NewMSatFromSatoshis(capacitySat),
-			ChanReserve:      capacitySat / 100,
+			MaxPendingAmount: lnwire.NewMSatFromSatoshis(btcutil.Amount(capacitySat)),
+			ChanReserve:      btcutil.Amount(reserve),
 			MinHTLC:          0,
 			MaxAcceptedHtlcs: input.MaxHTLCNumber / 2,
 		},
@@ -279,6 +294,8 @@ func New(p Params, report Reporter, stats *Stats) (*World, error) {
 		stats = &Stats{}
 	}
 	w := &World{P: p, ct: ct, report: report, Stats: stats}
+	w.gross = [2]int64{p.GrossA, p.CapacitySat - p.GrossA}
+	capacitySat := btcutil.Amount(p.CapacitySat)
 	base := os.Getenv("VERIF_SCRATCH")
 	if base == "" {
 		base = os.TempDir()
@@ -287,7 +304,7 @@ func New(p Params, report Reporter, stats *Stats) (*World, error) {
 
 	keys := [2][]*btcec.PrivateKey{privs(0x21), privs(0x83)}
 	cfgs := [2]channeldb.ChannelConfig{
-		chanCfg(keys[0], p.DustA, csvA), chanCfg(keys[1], p.DustB, csvB),
+		chanCfg(keys[0], p.DustA, csvA, p.CapacitySat, p.ReserveSat), chanCfg(keys[1], p.DustB, csvB, p.CapacitySat, p.ReserveSat),
 	}
 	var (
 		producers [2]*shachain.RevocationProducer
@@ -324,7 +341,7 @@ func New(p Params, report Reporter, stats *Stats) (*World, error) {
 		anchors = 2 * anchorSat
 	}
 	opTx, npTx, err := lnwallet.CreateCommitmentTxns(
-		halfSat-commitFee-anchors, halfSat, &cfgs[op], &cfgs[np], points[op], points[np],
+		btcutil.Amount(w.gross[op])-commitFee-anchors, btcutil.Amount(w.gross[np]), &cfgs[op], &cfgs[np], points[op], points[np],
 		*fundingTxIn, ct, true, lease,
 	)
 	if err != nil {
@@ -334,8 +351,8 @@ func New(p Params, report Reporter, stats *Stats) (*World, error) {
 	commitTx[op], commitTx[np] = opTx, npTx
 
 	bal := [2]lnwire.MilliSatoshi{}
-	bal[op] = lnwire.NewMSatFromSatoshis(halfSat - commitFee - anchors)
-	bal[np] = lnwire.NewMSatFromSatoshis(halfSat)
+	bal[op] = lnwire.NewMSatFromSatoshis(btcutil.Amount(w.gross[op]) - commitFee - anchors)
+	bal[np] = lnwire.NewMSatFromSatoshis(btcutil.Amount(w.gross[np]))
 
 	fakeSig := bytes.Repeat([]byte{0x30}, 70)
 	var tapRoot fn.Option[chainhash.Hash]
@@ -346,7 +363,7 @@ func New(p Params, report Reporter, stats *Stats) (*World, error) {
 
 	fundingTx := wire.NewMsgTx(2)
 	fundingTx.AddTxIn(wire.NewTxIn(&wire.OutPoint{Index: 7}, nil, nil))
-	fundingTx.AddTxOut(wire.NewTxOut(capacitySat, []byte{0x00, 0x14, 1, 2, 3, 4, 5, 6, 7, 8, 9, 10, 11, 12, 13, 14, 15, 16, 17, 18, 19, 20}))
+	fundingTx.AddTxOut(wire.NewTxOut(int64(capacitySat), []byte{0x00, 0x14, 1, 2, 3, 4, 5, 6, 7, 8, 9, 10, 11, 12, 13, 14, 15, 16, 17, 18, 19, 20}))
 	for i := 0; i < 2; i++ {
 		o := 1 - i
 		pp := &party{idx: i, name: string(rune('A' + i)), keys: keys[i], producer: producers[i],
